@@ -128,6 +128,21 @@ func remoteReadAt(client *http.Client, url string, p []byte, off int64) (n int, 
 		return 0, err
 	}
 	defer resp.Body.Close()
+	// The body holds the requested bytes only if the server honoured the Range header:
+	// an error page, or the whole file sent by a server that ignores ranges, is not file data at this offset.
+	switch {
+	case resp.StatusCode == http.StatusPartialContent:
+		if contentRange := resp.Header.Get("Content-Range"); contentRange != "" {
+			var first int64
+			if _, err := fmt.Sscanf(contentRange, "bytes %d-", &first); err != nil || first != off {
+				return 0, fmt.Errorf("unexpected Content-Range %q for a read at offset %d", contentRange, off)
+			}
+		}
+	case resp.StatusCode == http.StatusOK && off == 0:
+		// the whole file from its start: the first len(p) bytes are the requested ones.
+	default:
+		return 0, fmt.Errorf("unexpected status code %d for a range read at offset %d", resp.StatusCode, off)
+	}
 	{
 		n, err := io.ReadFull(resp.Body, p)
 		if err != nil {
